@@ -191,12 +191,32 @@ def z_r3_writer_shape(p: Project, rep: Report):
             rep.check("Z-R3", "format_datetime:hours-mins-split", ok, f"hours/minutes are computed as divmod({a0}, {text(c.args[1])}): for negative offsets floor division gives the wrong hours/minutes unless the absolute value is split" if not ok else "", tloc(p, fd0))
     else:
         rep.note("Z-R3 undecided: no divmod() split of the offset")
-    # --- minutes format
-    specs = [(text(v.value), text(v.format_spec)) for j in ast.walk(fd) if isinstance(j, ast.JoinedStr) for v in j.values if isinstance(v, ast.FormattedValue) and v.format_spec is not None]
-    mins = [sp for val, sp in specs if "min" in val.lower() and "offset" not in val.lower()]
-    if mins:
-        ok = all("02d" in sp for sp in mins)
-        rep.check("Z-R3", "format_datetime:minutes=.MM", ok, f"offset minutes are formatted with {mins}: the reader requires exactly two digits" if not ok else "", tloc(p, fd0))
+    # --- minutes format: the variable holding the minutes is the remainder of the split by 60
+    minvars = set()
+    for st in ast.walk(fd):
+        if isinstance(st, ast.Assign) and len(st.targets) == 1:
+            t, v = st.targets[0], st.value
+            if isinstance(t, ast.Tuple) and len(t.elts) == 2 and isinstance(v, ast.Call) and isinstance(v.func, ast.Name) and v.func.id == "divmod" and len(v.args) == 2 and text(v.args[1]) == "60" and isinstance(t.elts[1], ast.Name):
+                minvars.add(t.elts[1].id)
+            if isinstance(t, ast.Name) and isinstance(v, ast.BinOp) and isinstance(v.op, ast.Mod) and text(v.right) == "60":
+                minvars.add(t.id)
+    uses = []
+    for j in ast.walk(fd):
+        if isinstance(j, ast.JoinedStr):
+            for v in j.values:
+                if isinstance(v, ast.FormattedValue):
+                    inner = v.value
+                    while isinstance(inner, ast.Call) and isinstance(inner.func, ast.Name) and inner.func.id in ("int", "abs") and len(inner.args) == 1:
+                        inner = inner.args[0]
+                    if isinstance(inner, ast.Name) and inner.id in minvars:
+                        uses.append(text(v.format_spec) if v.format_spec is not None else "")
+    zfilled = any(isinstance(c, ast.Call) and isinstance(c.func, ast.Attribute) and c.func.attr == "zfill" and text(c.args[0]) == "2" and any(isinstance(x, ast.Name) and x.id in minvars for x in ast.walk(c.func.value)) for c in ast.walk(fd) if isinstance(c, ast.Call) and c.args)
+    if uses:
+        good = {"'02d'", "'02'", "'0>2'", "'0>2d'", "02d", "02", "0>2", "0>2d"}
+        ok = all(u.strip("f") in good or u in good for u in uses)
+        rep.check("Z-R3", "format_datetime:minutes=.MM", ok, f"offset minutes are formatted with {[u or '<no format spec>' for u in uses]}: the reader requires exactly two digits ([+5.5] is not [+5.05])" if not ok else "", tloc(p, fd0))
+    elif zfilled:
+        rep.check("Z-R3", "format_datetime:minutes=.MM", True, "", tloc(p, fd0))
     else:
         rep.note("Z-R3 undecided: minutes format not recognised")
     for clsname in ("DateTime", "Time"):
